@@ -46,12 +46,12 @@ func (d *SystemDate) UnmarshalUT0311L0x(b []byte) (interface{}, error) {
 		return nil, err
 	}
 
-	date, err := time.ParseInLocation("060102", decoded, time.Local)
+	date, err := time.Parse("060102", decoded)
 	if err != nil {
 		return nil, err
 	}
 
-	v := SystemDate(date)
+	v := SystemDate(startOfDay(date.Date()))
 
 	return &v, nil
 }
